@@ -156,15 +156,26 @@ func (its *WiredDatatype) checkOptionAndError(ppp *model.PushPullPack) errors.Or
 }
 
 func (its *WiredDatatype) excludeDuplicatedOperations(ppp *model.PushPullPack) {
+	// Operations of this client come back from the server when the response of an earlier
+	// push was lost; they are already applied locally and can sit anywhere in the pulled list.
+	foreign := make([]*model.Operation, 0, len(ppp.Operations))
+	for _, op := range ppp.Operations {
+		if op.ID.GetCUID() != its.opID.CUID {
+			foreign = append(foreign, op)
+		}
+	}
+	// `pulled` is the number of foreign operations above the current checkpoint; the pulled list
+	// is in log order, so they are the last ones. A stale response yields a negative number.
 	pulled := its.calculatePullingOperations(ppp.CheckPoint)
-	if len(ppp.Operations) > pulled {
-		// for example, if len(ppp.Operations) == 5: o_1 o_2 o_3 o_4 o_5 are received, and
-		// if `pulled` == 3, o_1 and o_2 were already received,
-		// o_1 and o_2 should be skipped
-		skip := len(ppp.Operations) - pulled
-		ppp.Operations = ppp.Operations[skip:]
+	if pulled < 0 {
+		pulled = 0
+	}
+	if len(foreign) > pulled {
+		skip := len(foreign) - pulled
+		foreign = foreign[skip:]
 		its.L().Infof("skip %d operations", skip)
 	}
+	ppp.Operations = foreign
 }
 
 func (its *WiredDatatype) syncCheckPoint(newCheckPoint *model.CheckPoint) {
